@@ -1084,7 +1084,14 @@ func (d *indexData) newMatchTree(q query.Q, opt matchTreeOpt) (matchTree, error)
 		checksum := queryMetaChecksum(s.Field, s.Value)
 		cacheKeyField := "Meta"
 		if cached, ok := d.docMatchTreeCache.Get(cacheKeyField, checksum); ok {
-			return cached, nil
+			// A docMatchTree carries its iteration cursor (firstDone, docID), so
+			// the cached instance must not be shared between searches. Hand out
+			// a fresh cursor over the cached (immutable) predicate.
+			return &docMatchTree{
+				reason:    cached.reason,
+				numDocs:   cached.numDocs,
+				predicate: cached.predicate,
+			}, nil
 		}
 
 		reposWant := make([]bool, len(d.repoMetaData))
